@@ -281,3 +281,28 @@ Proof.
   - apply fit_expo_spec.
   - apply fit_gauss_spec. assumption.
 Qed.
+
+(* ---------------------------------------------------------------- uniqueness on the data *)
+Lemma gsum_nonneg_zero : forall {A} (f : A -> R) l,
+  (forall a, 0 <= f a) -> gsum f l = 0 -> forall a, In a l -> f a = 0.
+Proof.
+  induction l as [|b l IH]; intros Hf Hs a Hin; simpl in *; [contradiction|].
+  assert (H0 : 0 <= gsum f l) by (apply gsum_nonneg; assumption).
+  specialize (Hf b) as Hb.
+  destruct Hin as [<-|Hin]; [lra|]. apply IH; try assumption. lra.
+Qed.
+
+(** two solutions of the normal equations take the same value at every data point of non-zero
+    weight: the least-squares polynomial is unique as a function on the data *)
+Lemma normal_eqs_agree : forall pts p q, normal_eqs pts p -> normal_eqs pts q -> length q = length p ->
+  forall t, In t pts -> pw t * (peval q (px t) - peval p (px t)) = 0.
+Proof.
+  intros pts p q Hp Hq Hl t Hin.
+  pose proof (normal_eqs_excess pts p Hp q Hl) as E1.
+  pose proof (normal_eqs_excess pts q Hq p (eq_sym Hl)) as E2.
+  rewrite (gsum_ext _ (fun t => (pw t * (peval q (px t) - peval p (px t))) ^ 2)) in E2 by (intros; ring).
+  assert (Hz : gsum (fun t => (pw t * (peval q (px t) - peval p (px t))) ^ 2) pts = 0) by lra.
+  pose proof (gsum_nonneg_zero _ pts (fun a => pow2_ge_0 _) Hz t Hin) as H. simpl in H.
+  apply Rmult_integral in H. destruct H as [H|H]; [exact H|].
+  rewrite Rmult_1_r in H. exact H.
+Qed.
